@@ -14,7 +14,7 @@ Section Bsearch.
 
   Lemma div2_mid l u : l < u -> l <= Nat.div2 (l + u) < u.
   Proof.
-    intros H. pose proof (Nat.div2_odd (l + u)) as E.
+    clear M1 M2. intros H. pose proof (Nat.div2_odd (l + u)) as E.
     destruct (Nat.odd (l + u)); cbn [Nat.b2n] in E; lia.
   Qed.
 
@@ -22,7 +22,7 @@ Section Bsearch.
   Lemma bsearch_sound fuel l u j :
     bsearch_loop fuel f l u = Some (Some j) -> l <= j < u /\ f j = 0%Z.
   Proof.
-    revert l u. induction fuel as [|fuel IH]; intros l u H; [discriminate|].
+    clear M1 M2. revert l u. induction fuel as [|fuel IH]; intros l u H; [discriminate|].
     cbn [bsearch_loop] in H.
     destruct (Nat.ltb l u) eqn:Hlu; [|discriminate].
     apply Nat.ltb_lt in Hlu. pose proof (div2_mid l u Hlu) as Hm.
@@ -67,7 +67,7 @@ Section Bsearch.
   Lemma bsearch_total fuel l u :
     u - l < 2 ^ fuel -> bsearch_loop (S fuel) f l u <> None.
   Proof.
-    revert l u. induction fuel as [|fuel IH]; intros l u Hsz.
+    clear M1 M2. revert l u. induction fuel as [|fuel IH]; intros l u Hsz.
     - cbn in Hsz. cbn [bsearch_loop].
       destruct (Nat.ltb l u) eqn:Hlu; [apply Nat.ltb_lt in Hlu; lia | discriminate].
     - remember (S fuel) as sf. cbn [bsearch_loop]. subst sf.
